@@ -139,12 +139,19 @@ class Run:
             vo.components.append(io)
             self.vmobjs[vm], self.imgobjs[vm] = vo, io
             graph.new_objects([vo, io])
-        for w in spec["workers"]:
+        self.shell = {}
+        for wi, w in enumerate(spec["workers"]):
             net = m.NetObject(w["id"], m.param.Reparsable())
+            # as in the shipped nets.cfg: containers have an address each, the hosts of a cluster sit behind ONE gateway
+            # address and differ by the forwarded port only
+            self.shell[w["id"]] = ((f"{w['swarm']}.net.lan", str(220 + wi)) if w["spawner"] == "remote"
+                                   else ("h" + w["id"], "22"))
             net._params_cache = m.Params({
                 "name": f"nets.{w['swarm']}.{w['id'].split('.')[-1]}", "shortname": w["id"], "nets": w["id"],
                 "nets_spawner": w["spawner"], "nets_host": w.get("host", "c" + w["id"]),
-                "nets_gateway": w.get("gateway", ""), "nets_shell_host": "h" + w["id"], "nets_shell_port": "22",
+                "nets_gateway": w.get("gateway", ""), "nets_shell_host": self.shell[w["id"]][0],
+                "nets_shell_port": self.shell[w["id"]][1], "nets_shell_client": "ssh", "nets_username": "root",
+                "nets_password": "test1234", "nets_shell_prompt": "^\\[.*\\][\\#\\$]\\s*$",
                 "nets_id": w["id"]})
             if w.get("restricted"):
                 net.restrs["vm1"] = "only x\n"
@@ -176,7 +183,8 @@ class Run:
                      "nets": wid, "vms": " ".join(cls["objs"]), "images": "image1",
                      "main_restrictions": MAIN_RESTR, "pool_scope": cfg.get("pool_scope", "own swarm cluster shared"),
                      "nets_spawner": w["spawner"], "nets_host": w.get("host", "c" + wid),
-                     "nets_gateway": w.get("gateway", ""), "shared_pool": "/pool/shared", "swarm_pool": "/pool/swarm",
+                     "nets_gateway": w.get("gateway", ""), "nets_shell_host": self.shell[wid][0],
+                     "nets_shell_port": self.shell[wid][1], "shared_pool": "/pool/shared", "swarm_pool": "/pool/swarm",
                      "vms_base_dir": "/images", "suite_path": "/suite", "unset_mode": "ri",
                      "test_timeout": str(cls.get("timeout", cfg.get("test_timeout", 100))),
                      "type": "synthetic", "configure_install": "synthetic_install",
@@ -316,6 +324,13 @@ class Run:
             me = next((x for x in run.workers.values() if x.id == run.worker_of_task()), None)
             nets_ok = me is not None and node.params.get("nets") == me.id and all(
                 node.params.get(k2) == me.params.get(k2) for k2 in ("nets_host", "nets_gateway", "nets_spawner"))
+            if node.params.get("nets_spawner") == "remote" and node.started_worker is not None:
+                sess = node.started_worker.get_session()
+                want = (node.params.get("nets_shell_host"), node.params.get("nets_shell_port"))
+                if sess is not None and (sess.host, sess.port) != want:
+                    nets_ok = False
+                    run.foreign_sessions.append(f"test {key[0]} of {wid} spawned through the session to "
+                                                f"{sess.host}:{sess.port} (its own worker is {want[0]}:{want[1]})")
             run.ev(run.worker_of_task(), "start", key[0], uid, {
                 "node_worker": key[1], "nets": node.params.get("nets"), "host": node.params.get("nets_host"),
                 "gateway": node.params.get("nets_gateway"), "spawner": node.params.get("nets_spawner"),
@@ -350,6 +365,11 @@ class Run:
             def run_subcontrol(session, path):
                 p, do = Door.params, Door.action
                 wid = p["nets"]
+                if session is not None and p.get("nets_shell_host") is not None and \
+                        (session.host, session.port) != (str(p.get("nets_shell_host")), str(p.get("nets_shell_port"))):
+                    run.foreign_sessions.append(f"state {do} of {wid} sent through the session to {session.host}:"
+                                                f"{session.port} (its own worker is {p.get('nets_shell_host')}:"
+                                                f"{p.get('nets_shell_port')})")
                 scope = p.get("pool_scope", "").split()
                 reqs = []
                 loc_key = {"check": "show_location", "get": "get_location", "unset": "unset_location"}[do]
@@ -432,7 +452,22 @@ class Run:
         self.cur_pre = {}
         m.TestRunner.run_test_task = run_test_task
         m.node_mod.door = Door
-        m.TestWorker.get_session = lambda self: None
+        # the REAL TestWorker.get_session (with its class-wide session cache) stays; only the login is faked: a session
+        # remembers the address it was opened to, so a test handled through another worker's session is visible
+        class FakeSession:
+            def __init__(self, client, host, port, *a, **k):
+                self.host, self.port = str(host), str(port)
+
+            def cmd_output(self, *a, **k):
+                return "date"
+
+            def close(self):
+                pass
+
+        self._saved_login = m.worker_mod.remote.wait_for_login
+        m.worker_mod.remote.wait_for_login = lambda *a, **k: FakeSession(*a, **k)
+        m.TestWorker._session_cache = {}
+        self.foreign_sessions = []
         if not getattr(self, "static_after", False):
             # (runs that expand flat nodes with the real parser keep the real function, also for the creation pre-step)
             m.TestGraph.parse_node_from_object = staticmethod(parse_node_from_object)
@@ -449,6 +484,8 @@ class Run:
         m = self.m
         (m.TestRunner.run_test_task, m.node_mod.door, m.TestWorker.get_session,
          m.TestGraph.parse_node_from_object, _) = self._saved
+        m.worker_mod.remote.wait_for_login = self._saved_login
+        m.TestWorker._session_cache = {}
         m.TestGraph.parse_paths_to_object_roots = self._saved_parse
         m.graph_mod.asyncio = asyncio
         self._runner_mod.asyncio = self._runner_asyncio
@@ -876,6 +913,7 @@ def run_case(spec, driver, monitors=MONITORS, max_virtual=200000, run_cls=None):
         kinds[e[1]] = kinds.get(e[1], 0) + 1
     res["kinds"] = kinds
     res["n_exec"] = kinds.get("start", 0)
+    res["foreign_sessions"] = list(getattr(r, "foreign_sessions", []))[:5]
     res["class_flags"] = {}
     for l in r.static_lines:
         if l.startswith("node "):
